@@ -25,9 +25,10 @@ Definition c17_ok (binding : bool) (r_fault : cresult) (vouches_after_fault curr
   && match r_rec with Success | UpToDate => true | _ => false end
   && current_after_rec && record_as_fresh.
 
-(* recorded class C17-1: the failing write truncated its file (fault after a successful open) while the record
-   equals the current fingerprint - the empty file then satisfies the presence test of the next run *)
-Definition c17_kf_trunc (truncating record_matched : bool) : bool := truncating && record_matched.
+(* "at no point is the record newer than the files it vouches for": a run that reports failure has not written the
+   record (C17_fault: s_cache st1 = s_cache st) *)
+Definition c17_record_ok (r_fault : cresult) (record_rewritten : bool) : bool :=
+  match r_fault with Failure => negb record_rewritten | _ => true end.
 
 Extraction Language OCaml.
-Extraction "tt_c17.ml" c17_trace c17_fault_index c17_ok c17_kf_trunc.
+Extraction "tt_c17.ml" c17_trace c17_fault_index c17_ok c17_record_ok.
